@@ -140,6 +140,8 @@ def _assign(ctx, w, target, timing):
     view_before = node.state if d.transport != "sdo" else None
     t0 = ctx.now
 
+    ctx.op("node.state =", target, "drive in", before, d.transport)
+
     def do():
         node.state = target
     _, exc = call(do)
